@@ -103,11 +103,7 @@ func init() {
 		// vsymParam(name) int: concrete harness parameter from the spec
 		"vsymParam": func(e *Exec, c *frame, fn *ssa.Function, a []Value) Value {
 			name := e.vsymName(a[0])
-			v, ok := e.P.cfg.Params[name]
-			if !ok {
-				panic("vsymParam: no parameter " + name)
-			}
-			return mkInt(int64(v))
+			return mkInt(int64(e.P.cfg.Params[name])) // a parameter that is not given is 0
 		},
 		// vsymDepth() int: current interpreted call depth (ghost; 0 natively)
 		"vsymDepth": func(e *Exec, c *frame, fn *ssa.Function, a []Value) Value {
